@@ -1,8 +1,8 @@
 SPECIFICATION Spec
 CONSTANTS
-  Clients = {"c1", "c2", "c3"}
-  Ids = {"s1", "s2"}
-  MaxCalls = 2
+  Clients = {"c1", "c2"}
+  Ids = {"s1"}
+  MaxCalls = 3
   Locked = TRUE
   StepGuard = TRUE
   NilGuard = TRUE
